@@ -394,12 +394,50 @@ def oracle(case, impl_result, model_result=None, drv=None):
 
 
 # ------------------------------------------------------------------------------------------ self test
-class ScratchDriver:
-    """development driver: interprets a scratch Main.lean (before the handler is linked into eaodrv)"""
+SCRATCH_MAIN = """import EAO.Driver.Core
+import EAO.Driver.Split
+import EAO.Driver.SplitBuild
+open Lean EAO EAO.Driver
 
-    def __init__(self, main='/tmp/pkg-splitbuild/Main.lean'):
+def handlers : List (String → Json → Option (Except String Json)) :=
+  [handleCore, handleSplit, handleSplitBuild]
+
+def handle (j : Json) : Except String Json := do
+  let op ← field j "op" Json.getStr?
+  match handlers.findSome? (fun h => h op j) with
+  | some r => r
+  | none => throw s!"unknown op {op}"
+
+partial def loop (h : IO.FS.Stream) (out : IO.FS.Stream) : IO Unit := do
+  let line ← h.getLine
+  if line.isEmpty then return ()
+  let resp := match Json.parse line with
+    | .error e => Json.mkObj [("err", Json.str s!"bad-request: {e}")]
+    | .ok j => match handle j with
+      | .ok r => Json.mkObj [("ok", r)]
+      | .error e => Json.mkObj [("err", Json.str s!"bad-request: {e}")]
+  out.putStrLn resp.compress
+  out.flush
+  loop h out
+
+def main : IO Unit := do loop (← IO.getStdin) (← IO.getStdout)
+"""
+
+
+class ScratchDriver:
+    """development driver: interprets a scratch Main.lean with the handlers `handleSplit` and `handleSplitBuild` (before
+    the handler is linked into eaodrv; needs `lake build EAO.Driver.SplitBuild`), or runs a compiled driver binary"""
+
+    def __init__(self, main=None):
         import subprocess
+        import tempfile
+        import os
         from ..lean import LEAN_DIR
+        if main is None:
+            self._tmp = tempfile.mkdtemp(prefix='splitbuild_drv_')
+            main = os.path.join(self._tmp, 'Main.lean')
+            with open(main, 'w') as f:
+                f.write(SCRATCH_MAIN)
         cmd = [main] if not main.endswith('.lean') else ['lake', 'env', 'lean', '--run', main]
         self.p = subprocess.Popen(cmd, cwd=LEAN_DIR, stdin=subprocess.PIPE, stdout=subprocess.PIPE, text=True, bufsize=1)
 
@@ -417,6 +455,9 @@ class ScratchDriver:
             self.p.wait(timeout=5)
         except Exception:
             self.p.kill()
+        if getattr(self, '_tmp', None):
+            import shutil
+            shutil.rmtree(self._tmp, ignore_errors=True)
 
 
 def selftest(n, seed, drv, verbose=False, stream=None):
